@@ -47,13 +47,18 @@ Theorem py_emitted_in_schema_except_take_max :
 Proof. exact TsDecisionsProofs.py_emitted_in_schema_except_take_max. Qed.
 Print Assumptions py_emitted_in_schema_except_take_max.
 
+(* the published merge-decision schema lists every action the Python side can emit (take_max since /repo 06b95f5) *)
+Theorem py_emitted_in_schema : forall a, In a py_emitted -> In a schema_actions.
+Proof. exact TsDecisionsProofs.py_emitted_in_schema. Qed.
+Print Assumptions py_emitted_in_schema.
+
 (* ======== BLOCK F4 (known finding "ts-rejects-emitted-action:take_max") ========
    True of the code as it is.  Once take_max is added to validateAction / resolveAction in decisions.ts and to
    merge_format.schema.json, Gen/Actions.v changes, this theorem fails, and the block is to be replaced by
      [py_emitted_accepted : forall a, In a py_emitted -> ts_validate_action a = Ok a], proved by
      [exact (TsDecisionsProofs.py_emitted_accepted_if_take_max_accepted eq_refl)]. *)
 Theorem take_max_refuted :
-  In take_max py_emitted /\ ts_validate_action take_max = Err RuntimeError /\ ~ In take_max schema_actions.
+  In take_max py_emitted /\ ts_validate_action take_max = Err RuntimeError /\ In take_max schema_actions.
 Proof. exact TsDecisionsProofs.take_max_refuted. Qed.
 Print Assumptions take_max_refuted.
 (* ======== END BLOCK F4 ======== *)
